@@ -10,7 +10,8 @@ import (
 )
 
 const schemaA = `{"$schema":"http://json-schema.org/draft-07/schema#","$ref":"#/definitions/A","definitions":{
- "A":{"type":"object","required":["pet"],"properties":{"pet":{"oneOf":[{"$ref":"#/definitions/Cat"},{"$ref":"#/definitions/Dog"}]},"k1":{"type":"string","const":"x"},"n1":{"type":"integer","const":1},"tags":{"type":"object","additionalProperties":{"type":"string"}},"level":{"type":"string","enum":["low","high"],"default":"low"},"flag":{"type":"boolean"},"part":{"$ref":"#/definitions/Part"}}},
+ "A":{"type":"object","required":["pet"],"properties":{"pet":{"oneOf":[{"$ref":"#/definitions/Cat"},{"$ref":"#/definitions/Dog"}]},"k1":{"type":"string","const":"x"},"n1":{"type":"integer","const":1},"tags":{"type":"object","additionalProperties":{"type":"string"}},"level":{"type":"string","enum":["low","high"],"default":"low"},"flag":{"type":"boolean"},"part":{"$ref":"#/definitions/Part"},"tg":{"$ref":"#/definitions/Tags"}}},
+ "Tags":{"type":"array","items":{"type":"string"}},
  "Part":{"type":"object","properties":{"p":{"type":"string"}}},
  "Cat":{"type":"object","required":["type"],"properties":{"type":{"type":"string","const":"cat"},"lives":{"type":"integer","minimum":0,"maximum":9}}},
  "Dog":{"type":"object","required":["type"],"properties":{"type":{"type":"string","const":"dog"},"name":{"type":"string","minLength":1}}},
@@ -18,14 +19,16 @@ const schemaA = `{"$schema":"http://json-schema.org/draft-07/schema#","$ref":"#/
 }}`
 
 const schemaB = `{"$schema":"http://json-schema.org/draft-07/schema#","$ref":"#/definitions/B","definitions":{
- "B":{"type":"object","properties":{"x":{"type":"string"},"items":{"type":"array","items":{"oneOf":[{"type":"string"},{"type":"boolean"}]}},"nested":{"type":"object","properties":{"deep":{"type":"string","enum":["u","v"]}}},"bp":{"$ref":"#/definitions/Part"}}},
+ "B":{"type":"object","properties":{"x":{"type":"string"},"items":{"type":"array","items":{"oneOf":[{"type":"string"},{"type":"boolean"}]}},"nested":{"type":"object","properties":{"deep":{"type":"string","enum":["u","v"]}}},"bp":{"$ref":"#/definitions/Part"},"btg":{"$ref":"#/definitions/Tags"}}},
+ "Tags":{"type":"array","items":{"type":"integer"}},
  "Part":{"type":"object","properties":{"r":{"type":"boolean"}}},
  "D1":{"type":"integer","const":1}
 }}`
 
 // gamma is referenced by nothing and references nothing else
 const schemaG = `{"$schema":"http://json-schema.org/draft-07/schema#","$ref":"#/definitions/G","definitions":{
- "G":{"type":"object","properties":{"g":{"type":"string"},"either":{"oneOf":[{"type":"string"},{"type":"boolean"}]},"gp":{"$ref":"#/definitions/Part"},"ga":{"$ref":"#/definitions/GAlias"}}},
+ "G":{"type":"object","properties":{"g":{"type":"string"},"either":{"oneOf":[{"type":"string"},{"type":"boolean"}]},"gp":{"$ref":"#/definitions/Part"},"ga":{"$ref":"#/definitions/GAlias"},"gtg":{"$ref":"#/definitions/Tags"}}},
+ "Tags":{"type":"object","additionalProperties":{"type":"string"}},
  "Part":{"type":"object","properties":{"q":{"type":"integer"}}},
  "GAlias":{"$ref":"#/definitions/Part"}
 }}`
@@ -147,8 +150,8 @@ const schemaZ = `{"$schema":"http://json-schema.org/draft-07/schema#","$ref":"#/
  "Z":{"type":"object","properties":{"zf":{"type":"string"},"n":{"type":"integer"}}}
 }}`
 
-func passesXref(referrer, referenced string) string {
-	return "passes:\n  - retype_field:\n      field: " + xrefField[referrer] + "\n      as: {kind: ref, ref: {referred_pkg: " + referenced + ", referred_type: Part}}\n"
+func passesXref(referrer, referenced, target string) string {
+	return "passes:\n  - retype_field:\n      field: " + xrefField[referrer] + "\n      as: {kind: ref, ref: {referred_pkg: " + referenced + ", referred_type: " + target + "}}\n"
 }
 
 func writeInputs(dir, repo string) {
@@ -160,7 +163,8 @@ func writeInputs(dir, repo string) {
 	for _, a := range []string{"alpha", "beta", "gamma", "aardvark", "zeta"} {
 		for _, b := range []string{"alpha", "beta", "gamma"} {
 			if a != b {
-				files["passes/xref-"+a+"-"+b+".yaml"] = passesXref(a, b)
+				files["passes/xref-"+a+"-"+b+".yaml"] = passesXref(a, b, "Part")
+				files["passes/xref-"+a+"-"+b+"-Tags.yaml"] = passesXref(a, b, "Tags")
 			}
 		}
 	}
